@@ -158,4 +158,4 @@ def prog_C01(ctx):
 
 def prog_C02(ctx):
     fsm_part(ctx, ['C02'], ['event_dkg_master_key'])
-    generic(ctx, ['Dc4bcVerif.Props.C02', 'Dc4bcVerif.Props.C01'], 'algdiff', 'alg', ['C02'], ALG_TRUSTED, ALG_RULE, cov_from_stats=alg_cov)
+    generic(ctx, ['Dc4bcVerif.Props.C02', 'Dc4bcVerif.Props.C02Fsm', 'Dc4bcVerif.Props.C01'], 'algdiff', 'alg', ['C02'], ALG_TRUSTED, ALG_RULE, cov_from_stats=alg_cov)
